@@ -574,3 +574,116 @@ def rule_pair_noise_applied(ctx: Ctx) -> None:
             ctx.fail("noise.both-applied", m, b.node,
                      f"{cname}._apply_additional_noise applies (control, target) noise {sorted(ends)} times depending on the path; both must be "
                      f"applied exactly once", func=f"{cname}._apply_additional_noise", construct=f"{cname}: pair noise counts {sorted(ends)}")
+
+
+
+# --------------------------------------------------------------------------- memoisation keys, determinism pass-through
+
+
+def _atoms(e: ast.AST, env: Dict[str, ast.AST], params: Set[str], depth: int = 0) -> Set[str]:
+    """Leaf dependencies of an expression: parameters and attribute chains rooted at a parameter, after substituting locals."""
+    out: Set[str] = set()
+    if e is None:
+        return out
+    if isinstance(e, ast.Attribute):
+        d = dotted(e)
+        if d and d.split(".")[0] in params:
+            out.add(".".join(d.split(".")[:2]))
+            return out
+    if isinstance(e, ast.Name):
+        if e.id in env and depth < 5:
+            return _atoms(env[e.id], env, params, depth + 1)
+        if e.id in params:
+            out.add(e.id)
+        return out
+    for ch in ast.iter_child_nodes(e):
+        out |= _atoms(ch, env, params, depth)
+    return out
+
+
+def rule_cache_keys(ctx: Ctx, rels_classes: List[Tuple[str, str]]) -> None:
+    """cache.key-complete: a memoised value `D[key] = value` (guarded by `key not in D`) may only depend on what its key
+    contains; a dependency of the value that is missing from the key makes a later call with a different such input reuse
+    the operators of an earlier one (results then depend on the history of the compiler object)."""
+    repo = ctx.repo
+    n = 0
+    for rel, cname in rels_classes:
+        m = repo.module(rel)
+        ci = repo.cls(cname, rel)
+        for name, fn in ci.methods().items():
+            params = {p_ for p_ in func_params(fn) if p_ != "self"}
+            env = {}
+            for st in ast.walk(fn):
+                if isinstance(st, ast.Assign) and len(st.targets) == 1 and isinstance(st.targets[0], ast.Name):
+                    env.setdefault(st.targets[0].id, st.value)
+            for iff in [x for x in ast.walk(fn) if isinstance(x, ast.If)]:
+                t = iff.test
+                if not (isinstance(t, ast.Compare) and len(t.ops) == 1 and isinstance(t.ops[0], ast.NotIn)):
+                    continue
+                key_e, store = t.left, norm(t.comparators[0])
+                sets = [st for st in ast.walk(iff) if isinstance(st, ast.Assign) and isinstance(st.targets[0], ast.Subscript)
+                        and norm(st.targets[0].value) == store and norm(st.targets[0].slice) == norm(key_e)]
+                if not sets:
+                    continue
+                n += 1
+                ctx.touch(m, fn)
+                local_env = dict(env)
+                for st in ast.walk(iff):
+                    if isinstance(st, ast.Assign) and len(st.targets) == 1 and isinstance(st.targets[0], ast.Name):
+                        local_env[st.targets[0].id] = st.value
+                key_atoms = _atoms(key_e, local_env, params)
+                val_atoms = _atoms(sets[0].value, local_env, params)
+                missing = sorted(a for a in val_atoms - key_atoms if not a.startswith("q_index"))
+                # callables passed in (q_index) are not data; attributes of the same object that the key already covers by value are fine
+                missing = [a for a in missing if a not in params or a not in {"q_index"}]
+                if missing:
+                    ctx.fail("cache.key-complete", m, sets[0],
+                             f"{cname}.{name} memoises `{short(sets[0].value, 60)}` under the key `{short(local_env.get(norm(key_e), key_e), 70)}`, but the value "
+                             f"also depends on {missing}: a call that differs only in those reuses the cached operators of an earlier call",
+                             func=f"{cname}.{name}", construct=f"{cname}.{name}: cache key misses {missing}")
+                else:
+                    ctx.ok("cache.key-complete", m, sets[0], what=f"{cname}.{name}: key covers every dependency of the cached value")
+    if n == 0:
+        ctx.ok_abstract("cache.key-complete", "no memoisation cache in the compilers / representation classes (nothing to key)")
+
+
+def rule_determinism_passthrough(ctx: Ctx) -> None:
+    """sibling.determinism (wrapper layer): a representation method that receives `measurement_determinism` hands it to the
+    backend function unchanged — the setting 0 is falsy, so `x or "probabilistic"` / `if x:` silently turns 'forced 0' into a
+    random draw."""
+    repo = ctx.repo
+    n = 0
+    for rel, cname in (("graphiq/backends/stabilizer/state.py", "Stabilizer"), ("graphiq/backends/stabilizer/state.py", "MixedStabilizer"),
+                       ("graphiq/backends/density_matrix/state.py", "DensityMatrix")):
+        m = repo.module(rel)
+        ci = repo.cls(cname, rel)
+        for name, fn in ci.methods().items():
+            ps = func_params(fn)
+            det = [p_ for p_ in ps if "determinism" in p_]
+            if not det:
+                continue
+            det = det[0]
+            ctx.touch(m, fn)
+            for node in ast.walk(fn):
+                if isinstance(node, ast.BoolOp) and any(isinstance(v, ast.Name) and v.id == det for v in node.values):
+                    n += 1
+                    ctx.fail("sibling.determinism", m, node,
+                             f"{cname}.{name} evaluates `{short(node)}`: the determinism setting 0 ('force outcome 0') is falsy, so it is replaced "
+                             f"by the fallback", func=f"{cname}.{name}", construct=f"{cname}.{name}: {short(node, 60)}")
+                if isinstance(node, (ast.If, ast.IfExp)) and isinstance(node.test, ast.Name) and node.test.id == det:
+                    n += 1
+                    ctx.fail("sibling.determinism", m, node, f"{cname}.{name} tests the truthiness of the determinism setting; 0 is a valid setting",
+                             func=f"{cname}.{name}", construct=f"{cname}.{name}: truthiness test of {det}")
+            for c in calls_in(fn):
+                if call_attr(c) in ("z_measurement_gate", "x_measurement_gate", "reset_z", "remove_qubit", "partial_trace", "apply_measurement"):
+                    args = list(c.args) + [k.value for k in c.keywords]
+                    uses = [a for a in args if det in {x.id for x in ast.walk(a) if isinstance(x, ast.Name)}]
+                    for a in uses:
+                        n += 1
+                        if isinstance(a, ast.Name) and a.id == det:
+                            ctx.ok("sibling.determinism", m, c, what=f"{cname}.{name} forwards the setting unchanged")
+                        elif not isinstance(a, ast.BoolOp):
+                            ctx.fail("sibling.determinism", m, c, f"{cname}.{name} forwards `{short(a)}` instead of the determinism setting itself",
+                                     func=f"{cname}.{name}", construct=f"{cname}.{name}: forwards {short(a, 50)}")
+    if n == 0:
+        raise AnalysisError("determinism pass-through: no wrapper site found")
